@@ -23,6 +23,52 @@ HARNESSES = [
 ]
 
 
+HOT_FILTER = call(r"= TieredEngine::filter_hot_knn_results_to_canonical\(", name="filter_hot_knn_results_to_canonical")
+MERGE = call(r"= TieredEngine::merge_knn_results\(", name="merge_knn_results")
+HOT_KNN = call(r"= HotTier::knn_search(_with_cancel)?\(", name="hot_tier.knn_search*")
+
+
+def _fn_and_closures(F, prefix):
+    from vlib.mirflow import find_fn
+    rn, _fn = find_fn(F, prefix)
+    return [n for n in F if rn and (n == rn or n.startswith(rn + "::{closure#"))]
+
+
+def _hot_closure_filtered(F, prefix):
+    """Batch path: whichever function/closure performs the hot-tier search also applies the canonical filter to its result before returning it."""
+    names = _fn_and_closures(F, prefix)
+    hits = [n for n in names if FnCheck(F, n).count(HOT_KNN) > 0]
+    if not hits:
+        return Result("inconclusive", "no hot-tier search found under %s" % prefix)
+    out = []
+    for n in hits:
+        fc = FnCheck(F, n)
+        if fc.count(HOT_FILTER) == 0:
+            r = fc.reachable(HOT_KNN)
+            out.append(Result("violated" if r.verdict == "holds" else "inconclusive", "%s searches the hot tier but never calls filter_hot_knn_results_to_canonical: stale mirrors reach the merge" % n,
+                              queries=r.queries, seconds=r.seconds, sample={"fn": n, "kind": "FOLLOWS", "A": HOT_KNN.name, "B": HOT_FILTER.name}))
+        else:
+            out.append(fc.follows(HOT_KNN, HOT_FILTER, exit="any", exit_ev=anyev(r"^_0 = ", name="return value")))
+    return out
+
+
+def _timed_filtered(F):
+    names = _fn_and_closures(F, T + "knn_search_with_timeouts_with_ef_scoped")
+    hits = [n for n in names if FnCheck(F, n).count(MERGE) > 0]
+    if not hits:
+        return Result("inconclusive", "merge_knn_results not found under the timed search entry point")
+    # coroutine body: the resume dispatch at bb0 can enter any segment, so PRECEDES is not expressible on the
+    # data-abstract CFG; require that the filter exists in the same state machine and never comes *after* the merge
+    out = []
+    for n in hits:
+        fc = FnCheck(F, n)
+        if fc.count(HOT_FILTER) == 0:
+            out.append(Result("violated", "%s merges hot results without filter_hot_knn_results_to_canonical" % n))
+        else:
+            out.append(fc.never(HOT_FILTER, frm=MERGE))
+    return out
+
+
 HB = "hnsw_backend::HnswBackend::"
 T = "tiered_engine::TieredEngine::"
 PUSH = call(r"= Vec::<(hnsw_index::)?SearchResult>::push\(", name="mapped.push")
@@ -41,10 +87,12 @@ MOS = [
              follows(T + "merge_knn_results", call(r"sort_by::<", name="sort_by distance"), call(r"= Vec::<(hnsw_index::)?SearchResult>::truncate\(", name="truncate(k)"), exit="any"),
              never(T + "merge_knn_results", call(r"= HashMap::<u64, f32>::insert\(", name="map.insert (overwriting)"), frm=call(r"= hash_map::Entry::<'_, u64, f32>::or_insert\(", name="entry(cold).or_insert"))),
        functions=[("tiered_engine.rs", "merge_knn_results")]),
-    MO("O6.6/hot_filter", "every search entry point filters hot-tier candidates through filter_hot_knn_results_to_canonical before merging",
-       allof(*[precedes(T + f, call(r"= TieredEngine::filter_hot_knn_results_to_canonical\(", name="filter_hot_knn_results_to_canonical"), call(r"= TieredEngine::merge_knn_results\(", name="merge_knn_results"))
-               for f in ("knn_search_with_ef_detailed_scoped",)]),
-       functions=[("tiered_engine.rs", "knn_search_with_ef_detailed_scoped")]),
+    MO("O6.6/hot_filter", "every search entry point (single, batch, timed) passes hot-tier candidates through filter_hot_knn_results_to_canonical (token + digest check) before they can be merged",
+       allof(precedes(T + "knn_search_with_ef_detailed_scoped", HOT_FILTER, MERGE),
+             follows(T + "knn_search_with_ef_detailed_scoped", HOT_KNN, HOT_FILTER, exit="any", exit_ev=MERGE),
+             lambda F: _hot_closure_filtered(F, T + "knn_search_batch_with_ef_detailed_scoped"),
+             lambda F: _timed_filtered(F)),
+       functions=[("tiered_engine.rs", "knn_search_with_ef_detailed_scoped"), ("tiered_engine.rs", "knn_search_batch_with_ef_detailed_scoped"), ("tiered_engine.rs", "knn_search_with_timeouts_with_ef_scoped")]),
 ]
 
 
